@@ -54,10 +54,10 @@ LEVEL_NOTE = ('Trusted: Coq kernel; the hand-written model (shape-pinned, valida
               'Python harness; zope.interface as oracle. The specificity theorem inherits C03\'s hypotheses (no two '
               'registrations with equal slot and phash, duplicate-free resolution orders, no accept=).')
 
-ISA_NAMES = ['BaseException', 'Exception', 'HTTPNotFound', 'PredicateMismatch', 'HTTPForbidden']
-EXC_CLASSES = ['E0', 'E1', 'E2', 'F0', 'D', 'K', 'NF', 'FB', 'BR', 'PM', 'MyNF', 'HE', 'WX', 'BE', 'G1', 'G2', 'DD']
+ISA_NAMES = ['BaseException', 'Exception', 'HTTPNotFound', 'PredicateMismatch', 'HTTPForbidden']   # + pseudo 'truthy'
+EXC_CLASSES = ['E0', 'E1', 'E2', 'F0', 'D', 'K', 'NF', 'FB', 'BR', 'PM', 'MyNF', 'HE', 'WX', 'BE', 'G1', 'G2', 'DD', 'FZ', 'EL', 'NA']
 EXC_CTX_NAMES = ['Exception', 'E0', 'E1', 'E2', 'F0', 'D', 'K', 'NF', 'FB', 'BR', 'PM', 'MyNF', 'HE', 'IER', 'WEB',
-                 'IM1', 'IM2', 'G1', 'G2', 'DD']          # contexts that are exception types
+                 'IM1', 'IM2', 'G1', 'G2', 'DD', 'FZ', 'EL', 'NA']          # contexts that are exception types
 CTX_NAMES = EXC_CTX_NAMES + ['IPlain', 'BE', 'Root']
 # contexts that can apply to an instance of the class (generation-time hint only; the oracle is zope's)
 ANCESTORS = {
@@ -66,6 +66,7 @@ ANCESTORS = {
     'NF': ['NF', 'IER', 'Exception'], 'FB': ['FB', 'IER', 'Exception'], 'BR': ['BR', 'IER', 'Exception'],
     'PM': ['PM', 'NF', 'IER', 'Exception'], 'MyNF': ['MyNF', 'NF', 'IER', 'Exception'],
     'HE': ['HE', 'E0', 'BR', 'IER', 'Exception'], 'WX': ['WEB', 'Exception'], 'BE': ['BE'],
+    'FZ': ['FZ', 'Exception'], 'EL': ['EL', 'E0', 'Exception'], 'NA': ['NA', 'Exception'],
     'G1': ['G1', 'E0', 'Exception'], 'G2': ['G2', 'E0', 'Exception'], 'DD': ['DD', 'G1', 'G2', 'E0', 'Exception'],
 }
 MARKS = ['IM1', 'IM2']
@@ -94,7 +95,7 @@ def facts(src):
 def gen_preds(rng, k=None):
     if k is None:
         k = rng.choice([0, 0, 0, 1, 1, 2, 3])
-    names = rng.sample(['xhr', 'request_method', 'request_param', 'custom'], min(k, 4))
+    names = rng.sample(['xhr', 'request_method', 'request_param', 'custom', 'match_param', 'header'], min(k, 6))
     p = {}
     for n in names:
         if n == 'xhr':
@@ -103,6 +104,10 @@ def gen_preds(rng, k=None):
             p[n] = rng.choice(['GET', 'POST', ['GET', 'POST']])
         elif n == 'request_param':
             p[n] = rng.choice(['k', 'k=v', 'j', 'j=w'])
+        elif n == 'match_param':
+            p[n] = rng.choice(['lang=en', 'lang=en', 'lang=fr'])
+        elif n == 'header':
+            p[n] = rng.choice(['X-Foo', 'X-Foo:ba.'])
         else:
             p[n] = [[rng.randrange(4), rng.random() < 0.2] for _ in range(rng.choice([1, 1, 2]))]
     return p
@@ -128,7 +133,7 @@ def gen_case(rng):
     routes = [{'name': n, 'ugv': rng.random() < 0.5} for n in ROUTES[:rng.choice([0, 1, 1, 2])]]
     rnames = [r['name'] for r in routes]
     fam = rng.choice([['E2', 'E1', 'D', 'E0', 'F0'], ['NF', 'MyNF', 'PM', 'FB', 'BR'], ['HE', 'E0', 'BR', 'WX', 'K'],
-                      ['DD', 'G1', 'G2', 'E0', 'D'],
+                      ['DD', 'G1', 'G2', 'E0', 'D'], ['FZ', 'EL', 'NA', 'E0', 'NF'],
                       EXC_CLASSES])
     excs = []
     for _ in range(rng.choice([3, 4, 5])):
@@ -188,7 +193,8 @@ def gen_case(rng):
             ['catch', rng.random() < 0.4, rng.random() < 0.7, rng.randrange(nexc) if rng.random() < 0.6 else None]
         reqs.append({'phase': 0, 'route': rng.choice(rnames) if (rnames and rng.random() < 0.4) else None,
                      'vname': rng.choice(['', '', 'v', 'v', 'zz']), 'method': rng.choice(['GET', 'GET', 'POST']),
-                     'xhr': rng.random() < 0.5,
+                     'xhr': rng.random() < 0.5, 'lang': rng.choice(['en', 'en', 'fr']),
+                     'xfoo': rng.choice([None, None, 'bar', 'baz', 'qux']),
                      'qs': [[rng.choice(PARAM_KEYS), rng.choice(['v', 'w'])] for _ in range(rng.choice([0, 1, 1, 2]))],
                      'truth': sorted(rng.sample(range(4), rng.choice([0, 2, 3, 4]))), 'deny': rng.random() < 0.3,
                      'root_raise': rng.randrange(nexc) if rng.random() < 0.12 else None,
@@ -255,6 +261,12 @@ def valid(case):
                 elif n == 'request_param':
                     if val not in ('k', 'k=v', 'j', 'j=w'):
                         return False
+                elif n == 'match_param':
+                    if val not in ('lang=en', 'lang=fr'):
+                        return False
+                elif n == 'header':
+                    if val not in ('X-Foo', 'X-Foo:ba.'):
+                        return False
                 elif n == 'custom':
                     if not (isinstance(val, list) and val and all(
                             isinstance(c, list) and len(c) == 2 and c[0] in range(4) and isinstance(c[1], bool) for c in val)):
@@ -265,6 +277,8 @@ def valid(case):
             if r['phase'] not in (0, 1) or not (r['route'] is None or r['route'] in rn) or r['vname'] not in VNAMES:
                 return False
             if r['method'] not in ('GET', 'POST') or not isinstance(r['xhr'], bool) or not isinstance(r['deny'], bool):
+                return False
+            if r.get('lang', 'en') not in ('en', 'fr') or r.get('xfoo') not in (None, 'bar', 'baz', 'qux'):
                 return False
             if any(not (isinstance(kv, list) and len(kv) == 2 and kv[0] in PARAM_KEYS and kv[1] in ('v', 'w')) for kv in r['qs']):
                 return False
@@ -309,9 +323,9 @@ def shrinks(case):
         def putr(nr, i=i):
             rs = case['requests'][:i] + [nr] + case['requests'][i + 1:]
             return dict(case, requests=sorted(rs, key=lambda w: w['phase']))
-        for k, simple in (('qs', []), ('xhr', False), ('truth', []), ('deny', False), ('root_raise', None), ('preset', None),
+        for k, simple in (('qs', []), ('xhr', False), ('lang', 'en'), ('xfoo', None), ('truth', []), ('deny', False), ('root_raise', None), ('preset', None),
                           ('route', None), ('method', 'GET'), ('under', ['pass']), ('phase', 0), ('vname', '')):
-            if r[k] != simple:
+            if r.get(k, simple) != simple:
                 yield putr(dict(r, **{k: simple}))
         if r['under'][0] == 'catch' and r['under'][3] is not None:
             yield putr(dict(r, under=['catch', r['under'][1], r['under'][2], None]))
@@ -381,6 +395,21 @@ def setup(tier):
     class BE(BaseException):
         pass
 
+    class FZ(Exception):           # falsy instances
+        def __bool__(self):
+            return False
+
+    class EL(E0):                  # an empty container of errors: falsy through __len__
+        def __len__(self):
+            return 0
+
+    class NA(Exception):           # falsy, and cannot be built without arguments
+        def __init__(self, a, b):
+            Exception.__init__(self, a, b)
+
+        def __bool__(self):
+            return False
+
     class G1(E0):
         pass
 
@@ -389,7 +418,7 @@ def setup(tier):
 
     class DD(G1, G2):          # diamond: DD -> G1, G2 -> E0
         pass
-    classes = {'G1': G1, 'G2': G2, 'DD': DD, 'E0': E0, 'E1': E1, 'E2': E2, 'F0': F0, 'D': D, 'K': K, 'NF': HTTPNotFound, 'FB': HTTPForbidden,
+    classes = {'G1': G1, 'G2': G2, 'DD': DD, 'FZ': FZ, 'EL': EL, 'NA': NA, 'E0': E0, 'E1': E1, 'E2': E2, 'F0': F0, 'D': D, 'K': K, 'NF': HTTPNotFound, 'FB': HTTPForbidden,
                'BR': HTTPBadRequest, 'PM': PredicateMismatch, 'MyNF': MyNF, 'HE': HE, 'WX': webob.exc.HTTPBadRequest,
                'BE': BE, 'Exception': Exception, 'IER': IExceptionResponse, 'WEB': webob.exc.WSGIHTTPException,
                'IM1': IM1, 'IM2': IM2, 'IPlain': IPlain, 'Root': A.Root}
@@ -430,7 +459,7 @@ class World:
         cfg.add_tween('harness.c14.app.probe_factory', under=P['EXCVIEW'])
         cfg.add_tween('harness.c14.app.under_factory', under='harness.c14.app.probe_factory')
         for r in case['routes']:
-            cfg.add_route(r['name'], '/%s/*traverse' % r['name'], use_global_views=r['ugv'])
+            cfg.add_route(r['name'], '/%s/{lang}/*traverse' % r['name'], use_global_views=r['ugv'])
         if batched:
             cfg.commit()
         self.cfg = cfg
@@ -518,7 +547,7 @@ class World:
         P = _P
         x = self.case['excs'][i]
         cls = P['classes'][x['cls']]
-        e = cls('c14-%d' % i) if x['cls'] != 'BE' else cls()
+        e = cls() if x['cls'] == 'BE' else cls('c14', i) if x['cls'] == 'NA' else cls('c14-%d' % i)
         for m in x['marks']:
             P['alsoProvides'](e, P['classes'][m])
         e.c14_id = i
@@ -527,7 +556,7 @@ class World:
     def exc_entry(self, i, e):
         P = _P
         sro = [self.iid(s) for s in P['providedBy'](e).__sro__]
-        isa = [n for n in ISA_NAMES if isinstance(e, P['isa_classes'][n])]
+        isa = [n for n in ISA_NAMES if isinstance(e, P['isa_classes'][n])] + (['truthy'] if bool(e) else [])
         st = int(e.status_int) if isinstance(e, webob_response()) else 0
         return [i, sro, isa, st]
 
@@ -545,7 +574,7 @@ class World:
     def request(self, r):
         P = _P
         segs = [r['vname']] if r['vname'] else []
-        url = '/' + '/'.join(([r['route']] if r['route'] else []) + segs)
+        url = '/' + '/'.join(([r['route'], r.get('lang', 'en')] if r['route'] else []) + segs)
         if r['route'] and not segs:
             url += '/'
         if r['qs']:
@@ -555,6 +584,8 @@ class World:
         req.method = r['method']
         if r['xhr']:
             req.headers['X-Requested-With'] = 'XMLHttpRequest'
+        if r.get('xfoo') is not None:
+            req.headers['X-Foo'] = r['xfoo']
         return req
 
     def oracle(self, r):
@@ -565,8 +596,13 @@ class World:
         rsro = [self.iid(i) for i in riface.__sro__]
         comb = [self.iid(i) for i in riface.combined.__sro__]
         csro = [self.iid(i) for i in P['providedBy'](A.ROOT).__sro__]
-        rq = [r['method'], params, [], r['xhr'], [[]] if r['route'] else [], False, req.upath_info, [['', []]], True,
-              [], [], sorted(r['truth']), rsro, csro, r['vname']]
+        import re
+        xf = req.headers.get('X-Foo')
+        headers = [['X-Foo', xf]] if xf is not None else []
+        rx = [['ba.', xf, re.compile('ba.').match(xf) is not None]] if xf is not None else []
+        md = [[['lang', r.get('lang', 'en')]]] if r['route'] else []
+        rq = [r['method'], params, headers, r['xhr'], md, False, req.upath_info, [['', []]], True,
+              rx, [], sorted(r['truth']), rsro, csro, r['vname']]
         u = r['under']
         wu = [0] if u[0] == 'pass' else [1, u[1]] if u[0] == 'raise' else [2, u[1], u[2], [] if u[3] is None else [u[3]]]
         unr = [self.iid(i) for i in P['IRequest'].combined.__sro__]
@@ -780,6 +816,9 @@ def kinds(case, obs):
             k.append('req:phase1')
         if r['route']:
             k.append('req:routed')
+        if arriving is not None and arriving[0] == 2 and arriving[1] < 1000 and \
+                case['excs'][arriving[1]]['cls'] in ('FZ', 'EL', 'NA'):
+            k.append('arrive:falsy-exception' + ('-propagated' if o[0] == 2 else ''))
         if any(e[0] == 1 for e in tr):
             k.append('req:iev-in-tween' + ('' if r['under'][2] else '-secure-false'))
         if o[0] == 2 and o[1] in (1013, 1023):
@@ -797,6 +836,9 @@ def kinds(case, obs):
             dirs.add('decl:phase1')
         if v['preds']:
             dirs.add('decl:predicated')
+        for n in v['preds']:
+            if v['dir'] in ('nf', 'fb', 'exc'):
+                dirs.add('decl:%s-with-%s' % (v['dir'], n))
     k += sorted(dirs)
     if any(x['marks'] for x in case['excs']):
         k.append('exc:marked-instance')
